@@ -11,7 +11,11 @@ LEVEL_TEXT = (
     "Path rules on the pool bracket (exactly one release/destroy on every normal/ordinary-exception exit, destroy when "
     "destroy_on_fail), constant-argument rules over all 24 bracket sites and the inner-client constructor, and typestate "
     "rules on ObjectPool.get/release (idle test direction, expired objects closed and never handed out, reuse before "
-    "create, idle stamp refreshed on release). Numeric idle gaps and reuse counts are not decided."
+    "create, idle stamp refreshed on release), plus R8: ObjectPool interpreted with exact collections on a concrete pool "
+    "(scripted clock, created objects as distinct symbols) under every sequence of get / release(x) / destroy(x) / clear "
+    "/ clock ticks up to depth 6 (8 thorough), x any object created so far: nothing listed twice, at most max_size "
+    "listed, every object listed or closed exactly once, only unheld / open / fresh objects handed out, no expired "
+    "object left idle after a checkout. Bounded in depth and pool size (max_size 1 and 2)."
 )
 TRUSTED = ["CPython ast", "pmcsa/paths.py", "release()/destroy() are atomic for slot accounting (their internal ordering is C08.R3)"]
 
